@@ -7,7 +7,7 @@ import struct as _struct
 from ..common import alloc_typecodes, nshow, outer_field, paths
 from ..expr import C, SELF, canon, first_diff, mapx, norm, show, strip_epochs, walk
 from ..model import AnalysisError
-from .C05 import emissions, footer_of
+from .C05 import expand_format, emissions, footer_of
 from .C18 import kernel_rules
 
 EXPL = ("The layout facts quoted in the property are compared with the code in normal form: footer formats and field order "
@@ -68,6 +68,17 @@ def check(prog, rep, tier):
             rep.bad("C06.footer", f"{ctx}.export", f"footer '{foot[1]}' {got}",
                     f"export writes footer '{foot[1]}' with fields {got} ({'last' if last else 'not last'}, cells {'before' if cells_before else 'missing before'} it); "
                     f"the documented layout is cells followed by '{fmt}' ({', '.join(names)}), {size} bytes", foot[4].where())
+        if ctx == "ExpandingBloomFilter" and okf:
+            # documented record per sub-filter: its uint64 element count immediately followed by its bit array
+            inl = [x for x in em if x[-2] is True]
+            shape = [x[0] for x in inl]
+            okrec = shape == ["pack", "cells"] and expand_format(inl[0][1]) == "Q"
+            if not okrec:
+                rep.bad("C06.footer", f"{ctx}.export", f"records {[x[0] for x in em]}",
+                        f"export emits {[x[0] for x in em]} (per sub-filter: {shape}); the documented layout is one record per sub-filter - its uint64 count "
+                        "immediately followed by its bit array - and then the footer: an independent reader misplaces every array after the first", f.where())
+            else:
+                rep.ok("C06.footer", f"{ctx}: per sub-filter 'Q' count then its bit array")
         atc = alloc_typecodes(prog, ctx, {"CountMinSketch": "_bins"}.get(ctx, "_bloom")) if ctx in ("BloomFilter", "CountingBloomFilter", "CountMinSketch") else {tc}
         if atc != {tc}:
             rep.bad("C06.footer", f"{ctx}.__init__", f"cell typecode {sorted(atc)}", f"cells are allocated as array({sorted(atc)}), documented '{tc}'", f.where())
@@ -334,6 +345,10 @@ MUTANTS = [
     Mutant("mean-min: odd median off by one", _CM, replace_stmt("CountMinSketch", "__mean_min_query", "res = meanmin[self.depth // 2]", "res = meanmin[self.depth // 2 - 1]"), rule="C06.mean"),
     Mutant("mean-min: zero shortcut tests only the smallest", _CM, replace_expr("CountMinSketch", "__mean_min_query", "results[0] == 0 and results[-1] == 0", "results[0] == 0"), rule="C06.mean"),
     Mutant("mean: true division", _CM, replace_expr("CountMinSketch", "__mean_query", "sum(results) // self.depth", "int(sum(results) / self.depth + 0.5)"), rule="C06.mean"),
+    Mutant("expanding export writes each bit array before its count", "blooms/expandingbloom.py",
+           seq(del_stmt("ExpandingBloomFilter", "export", "filepointer.write(self.__S_INT64_STRUCT.pack(blm.elements_added))"),
+               insert_stmt("ExpandingBloomFilter", "export", "filepointer.write(self.__S_INT64_STRUCT.pack(blm.elements_added))", after="blm.bloom.tofile(filepointer)")),
+           rule="C06.footer"),
     Mutant("Bloom export writes the footer first", _B, replace_stmt("BloomFilter", "export", "self._bloom.tofile(file)", "pass"), rule="C06.footer"),
     Mutant("count-min footer packs depth first", _CM, replace_expr("CountMinSketch", "export", "self.__FOOTER_STRUCT.pack(self.width, self.depth, self.elements_added)", "self.__FOOTER_STRUCT.pack(self.depth, self.width, self.elements_added)"), rule="C06.footer"),
     Mutant("count-min footer struct IIq -> IIQ", _CM, replace_class_const("CountMinSketch", "__FOOTER_STRUCT", "Struct('IIQ')"), rule="C06.footer"),
